@@ -155,7 +155,11 @@ func main() {
 }
 
 // runRule isolates panics of one rule: a crash is an UNDECIDED obligation, never a pass.
+// activeProg is the program the rule currently running analyses (rules run one at a time).
+var activeProg *Program
+
 func runRule(ru Rule, p *Program, r *Report) {
+	activeProg = p
 	defer func() {
 		if e := recover(); e != nil {
 			r.Undecided(ru.ID, "panic", "-", "rule must run to completion", fmt.Sprint(e))
